@@ -32,12 +32,12 @@ OFFSETS = [None, 0, 1, -1, 30, -30, 60, -60, 90, -90, 330, -330, 840, -840]
 MICROS = [0, 1000, 5000, 50000, 120000, 999000]
 TIMES = [(0, 0, 0), (12, 1, 2), (23, 59, 59)]
 DATES_UTC = [(1970, 1, 1), (1999, 12, 31), (2000, 2, 29), (2049, 12, 31)]
-DATES_GT = DATES_UTC + [(1000, 1, 1), (9999, 12, 31)]
+DATES_GT = DATES_UTC + [(1000, 1, 1), (9999, 12, 31), (1, 1, 2), (99, 6, 15), (999, 12, 31)]
 
 
 def predicted_ms_text(cls, dt):
     """recorded finding T2: fromDateTime writes the millisecond count without zero padding"""
-    text = dt.strftime('%Y%m%d%H%M%S' if cls is useful.GeneralizedTime else '%y%m%d%H%M%S')
+    text = ('%.4d' % dt.year + dt.strftime('%m%d%H%M%S')) if cls is useful.GeneralizedTime else dt.strftime('%y%m%d%H%M%S')
     text += '.%d' % (dt.microsecond // 1000)
     off = dt.utcoffset()
     if off:
